@@ -40,3 +40,18 @@ Definition spec_CountPrefixes_fast (keys : list (list Z)) (s e m : Z) : Z * list
 (** * a sequence of queries on one SigBits object: every answer is the one of a fresh object *)
 Definition spec_queries (keys : list (list Z)) (qs : list (Z * Z * Z)) : list (Z * list Z) :=
   map (fun q => match q with (s, e, m) => spec_CountPrefixes keys s e m end) qs.
+
+(** * a session of steps on one key slice and one object (Model/SigbitsQueries.v: [sstep]); the
+      specification does not know about objects: every CountPrefixes answer is the one of the
+      key list, FirstDiffBits the adjacent common prefixes, ShardByPrefix is not observed here *)
+Inductive spec_step : Type :=
+| SCount (s e m : Z)
+| SShard (maxSize : Z)
+| SFdb.
+
+Definition spec_session (keys : list (list Z)) (steps : list spec_step) : list (Z * list Z) :=
+  map (fun st => match st with
+                 | SCount s e m => spec_CountPrefixes keys s e m
+                 | SShard _ => (0, [])
+                 | SFdb => (0, spec_FirstDiffBits keys)
+                 end) steps.
